@@ -93,7 +93,7 @@ struct Batch {
 }
 
 #[allow(clippy::too_many_arguments)]
-fn run_batch(dir: &Path, t: &Tools, seed: u64, tier: u32, first: u64, end: u64, total_random: u64, jobs: u64) -> Batch {
+fn run_batch(dir: &Path, t: &Tools, seed: u64, tier: u32, first: u64, end: u64, total_random: u64, jobs: u64, sweep_stride: u64) -> Batch {
     let _ = std::fs::remove_dir_all(dir);
     std::fs::create_dir_all(dir).unwrap();
     let launch = |name: &str, start: u64| -> Child {
@@ -101,7 +101,7 @@ fn run_batch(dir: &Path, t: &Tools, seed: u64, tier: u32, first: u64, end: u64, 
         let args: Vec<String> = [
             "worker", "--seed", &seed.to_string(), "--tier", &tier.to_string(), "--total", &(end.saturating_sub(start)).to_string(), "--random",
             &total_random.to_string(), "--stride", &jobs.to_string(), "--offset", "0", "--first", &start.to_string(), "--out", &dir.to_string_lossy(),
-            "--name", name, "--bin", &t.bin, "--shim", &t.shim,
+            "--name", name, "--bin", &t.bin, "--shim", &t.shim, "--sweep-stride", &sweep_stride.to_string(),
         ]
         .iter()
         .map(|s| s.to_string())
@@ -423,8 +423,9 @@ pub fn run(args: &[String]) -> i32 {
     let jobs = arg_u64(args, "--jobs", std::thread::available_parallelism().map(|n| n.get() as u64).unwrap_or(4)).max(1);
     let total_random = arg_u64(args, "--runs", if tier == 0 { 6_000 } else { 120_000 });
     // sweeps: quick = a sample of base 0 (every 16th position), thorough = 6 complete bases
-    let sweep_bases = arg_u64(args, "--sweep-bases", if tier == 0 { 0 } else { 6 });
-    let total = total_random + sweep_bases * sweep::PER_BASE;
+    let sweep_bases = arg_u64(args, "--sweep-bases", if tier == 0 { 1 } else { 6 });
+    let sweep_stride = arg_u64(args, "--sweep-stride", if tier == 0 { 19 } else { 1 }).max(1);
+    let total = total_random + (sweep_bases * sweep::PER_BASE).div_ceil(sweep_stride);
     let evidence = arg_val(args, "--evidence").unwrap_or_else(|| die("--evidence FILE"));
     let replays = arg_val(args, "--replays").unwrap_or_else(|| die("--replays DIR"));
     let known: KnownFile = arg_val(args, "--known")
@@ -442,7 +443,7 @@ pub fn run(args: &[String]) -> i32 {
     let mut rounds = 0;
     while first < total {
         rounds += 1;
-        let batch = run_batch(&dir.join("batch"), &t, seed, tier, first, total, total_random, jobs);
+        let batch = run_batch(&dir.join("batch"), &t, seed, tier, first, total, total_random, jobs, sweep_stride);
         hung.extend(batch.hung.iter().copied());
         let cutoff = batch.fails.first().map(|c| c.i);
         for l in batch.lines {
@@ -454,6 +455,17 @@ pub fn run(args: &[String]) -> i32 {
             None => break,
             Some(rl) => {
                 let raw = case_from(&rl, seed, tier);
+                if let Some(k) = known.findings.iter().find(|k| matches_known(k, &raw)) {
+                    let line = format!("KNOWN-FINDING: property=C19 {}", k.what);
+                    if !known_hits.contains(&line) {
+                        known_hits.push(line);
+                    }
+                    first = raw.run + 1;
+                    if rounds > 200 {
+                        die("more than 200 restarts after known findings");
+                    }
+                    continue;
+                }
                 println!("violation at scenario {} class={} : minimising ...", raw.run, raw.class);
                 let (case, log) = minimise(&dir, &t, &raw);
                 if let Some(k) = known.findings.iter().find(|k| matches_known(k, &case)) {
@@ -480,7 +492,7 @@ pub fn run(args: &[String]) -> i32 {
     let mut det = json!({"checked": 0, "mismatches": 0});
     if violations.is_empty() && !all_lines.is_empty() {
         let n = (total_random).min(if tier == 0 { 300 } else { 1500 });
-        let again = run_batch(&dir.join("det"), &t, seed, tier, 0, n, total_random, 3.min(jobs));
+        let again = run_batch(&dir.join("det"), &t, seed, tier, 0, n, total_random, 3.min(jobs), sweep_stride);
         let by_i: HashMap<u64, &RunLine> = all_lines.iter().map(|l| (l.i, l)).collect();
         let (mut mism, mut checked) = (0, 0);
         for l in &again.lines {
@@ -682,7 +694,7 @@ pub fn selftest(args: &[String]) -> i32 {
     let dir = scratch_dir("selftest");
     let mut maps: Vec<HashMap<u64, String>> = Vec::new();
     for jobs in [4u64, 16, 7] {
-        let b = run_batch(&dir.join(format!("j{jobs}")), &t, seed, tier, 0, n, n, jobs);
+        let b = run_batch(&dir.join(format!("j{jobs}")), &t, seed, tier, 0, n, n, jobs, 1);
         maps.push(b.lines.iter().map(|l| (l.i, format!("{}/{}", l.strict.digest, l.inject.as_ref().map(|p| p.digest.clone()).unwrap_or_default()))).collect());
     }
     let _ = std::fs::remove_dir_all(&dir);
